@@ -1,0 +1,11 @@
+//go:build verif
+
+// Verification contracts (property C16; comment-only, read by /verif/govc).
+// "A partition with no commit returns -1, as the Kafka protocol requires": the store is where "no commit" is known.
+// This clause is REFUTED on the real code (a missing key reads as the map's zero value 0, and OffsetFetch passes it
+// on); existing tests pin 0, so it is a recorded known finding, not repaired.
+
+package metadata
+
+//@ func (s *InMemoryStore) FetchConsumerOffset
+//@   ensures [C16.never_committed_reads_minus_one] gdone && !old(has(s.consumerOffsets, gk)) ==> result0 == -1
